@@ -43,7 +43,7 @@ theorem c13_stops_when_found (s : Stack) (tid : Tid) (t : TaskSt) (k : Nat) (hpc
 /-- a round with something to ask sends ONE message, to the multicast group, with exactly those entries -/
 theorem c13_round (s : Stack) (tid : Tid) (t : TaskSt) (hpc : t.pc = .initial) (hc : t.cancelled = false)
     (he : s.findEntries ≠ []) :
-    ∃ s', s' = s.sendSd s.findEntries none ∧
+    ∃ s', s' = ({ s with findLog := s.findLog ++ [(tid.2, 0)] } : Stack).sendSd s.findEntries none ∧
       s.stepFind tid t = (if 0 < s'.tm.repetitionsMax then s'.sleepFor tid t (pow2 0 * s'.tm.repetitionsBaseDelay) (.rep 0)
                            else s'.finish tid t) := by
   refine ⟨_, rfl, ?_⟩
@@ -55,8 +55,9 @@ task ends: at most 1 + REPETITIONS_MAX messages per start -/
 theorem c13_next_round (s : Stack) (tid : Tid) (t : TaskSt) (k : Nat) (hpc : t.pc = .rep k) (hc : t.cancelled = false)
     (he : s.findEntries ≠ []) :
     s.stepFind tid t =
-      (if k + 1 < s.tm.repetitionsMax then (s.sendSd s.findEntries none).sleepFor tid t (pow2 (k + 1) * s.tm.repetitionsBaseDelay) (.rep (k + 1))
-       else (s.sendSd s.findEntries none).finish tid t) := by
+      (if k + 1 < s.tm.repetitionsMax then
+         (({ s with findLog := s.findLog ++ [(tid.2, k + 1)] } : Stack).sendSd s.findEntries none).sleepFor tid t (pow2 (k + 1) * s.tm.repetitionsBaseDelay) (.rep (k + 1))
+       else (({ s with findLog := s.findLog ++ [(tid.2, k + 1)] } : Stack).sendSd s.findEntries none).finish tid t) := by
   have : ¬ (s.findEntries.isEmpty = true) := by simpa using he
   simp [stepFind, hpc, hc, this]
 
